@@ -7,6 +7,11 @@ package ignorefiles
 
 //@ func readRules -> (rules, err)
 //@   sweep
+//@   pure
+//@   opt pure-label=C16.no-shared-state
+//@   replay ignoreRace@C16:
+//@   fresh-invariant loop1 rules
+//@   fresh-invariant loop2 rules
 //@   ghost $line String = ""
 //@   replay ignoreLine: line=$line
 //@   at-call append C03.readrules.rule: lineHasRule($line) && a1.val == lineRuleVal($line) && a1.negated == lineNegated($line) && a1.regex == nil
@@ -61,3 +66,5 @@ package ignorefiles
 
 //@ func ParseIgnoreFileContent -> (rs, err)
 //@   sweep
+//@   pure
+//@   opt pure-label=C16.no-shared-state
